@@ -204,11 +204,24 @@ func (r *run) state() {
 	r.tr.Log(r.path, storetrace.Event{"ev": "State", "committed": n, "alh": r.tr.Num(alh)})
 }
 
-func (r *run) open(fresh bool) {
+// open returns false when a database that was closed cleanly does not open again or cannot be read back: a verdict, not a harness fault
+func (r *run) open(fresh bool) bool {
 	st, err := store.Open(r.path, r.c.opts())
+	if err != nil && !fresh {
+		r.res.Violate("clean-restart:open-fails", fmt.Sprintf("a store closed cleanly does not open again: %v (config %+v)", err, r.c), map[string]interface{}{"cfg": fmt.Sprintf("%+v", r.c)})
+		r.st = nil
+		return false
+	}
 	vh.Must(err, "store.Open")
 	r.st = st
-	vh.Must(r.tr.Opened(r.path, st, fresh), "tracer.Opened")
+	if err := r.tr.Opened(r.path, st, fresh); err != nil {
+		if !fresh {
+			r.res.Violate("clean-restart:history-unreadable", fmt.Sprintf("after a clean restart the history cannot be read back: %v (config %+v)", err, r.c), map[string]interface{}{"cfg": fmt.Sprintf("%+v", r.c)})
+			return false
+		}
+		vh.Must(err, "tracer.Opened")
+	}
+	return true
 }
 
 var keyCounter uint64
@@ -314,6 +327,22 @@ func runOne(dir string, seed int64, runIdx int, res *vh.Result, out *os.File) {
 		vh.Must(tr.Adopt(r.path, st), "tracer.Adopt")
 	} else {
 		r.open(true)
+		if runIdx%2 == 1 && !c.Ext {
+			// the smallest non-empty database: exactly one committed transaction, then a clean restart
+			if tx, err := r.st.NewWriteOnlyTx(context.Background()); err == nil {
+				tx.Set([]byte("first"), nil, []byte("v"))
+				if _, err := tx.Commit(context.Background()); err == nil {
+					time.Sleep(5 * time.Millisecond)
+					vh.Must(r.st.Close(), "close")
+					res.Count("restart-with-exactly-one-committed-tx", 1)
+					if !r.open(false) {
+						res.Traces++
+						vh.Must(tr.WriteTrace(out), "write trace")
+						return
+					}
+				}
+			}
+		}
 	}
 	for cycle := 0; cycle <= c.Reopens; cycle++ {
 		ctx, cancelAll := context.WithCancel(context.Background())
@@ -433,7 +462,11 @@ func runOne(dir string, seed int64, runIdx int, res *vh.Result, out *os.File) {
 		}
 		if cycle < c.Reopens {
 			vh.Must(r.st.Close(), "store.Close")
-			r.open(false)
+			if !r.open(false) {
+				res.Traces++
+				vh.Must(tr.WriteTrace(out), "write trace")
+				return
+			}
 			r.observe()
 			r.state()
 		}
